@@ -19,11 +19,11 @@ structure SEdge where
 
 structure St where
   st : Store := {}
-  known : List Nat := []            -- labels that have an id
   sn : AList SNode := []
   se : AList SEdge := []
   sidx : List Nat := []             -- indexed keys (no semantic effect in the spec)
   ghost : List Nat := []            -- node ids that received a property while not alive
+  ghostE : List Nat := []           -- edge ids likewise
 
 def sortNat (l : List Nat) : List Nat :=
   let ins := fun (x : Nat) (acc : List Nat) =>
@@ -66,8 +66,7 @@ def handle (z : St) (args : List String) : Option (St × Proto.Out) :=
   | ["cn", ls] => do
     let ls ← parseLabels ls
     let (st', id) := z.st.createNode ls z.st.epoch systemTx
-    pure ({ z with st := st', known := ls.foldl sinsert z.known,
-                   sn := aset z.sn id ⟨true, ls.foldl sinsert [], []⟩ }, { model := toString id })
+    pure ({ z with st := st', sn := aset z.sn id ⟨true, ls.foldl sinsert [], []⟩ }, { model := toString id })
   | ["dn", id] => do
     let id ← id.toNat?
     let (st', r) := z.st.deleteNodeAt id z.st.epoch
@@ -114,7 +113,8 @@ def handle (z : St) (args : List String) : Option (St × Proto.Out) :=
     let se' := match aget z.se id with
       | some e => if e.alive then aset z.se id { e with props := aset e.props k v } else z.se
       | none => z.se
-    pure ({ z with st := z.st.setEdgeProp id k v, se := se' }, { model := "-" })
+    let alive := match aget z.se id with | some e => e.alive | none => false
+    pure ({ z with st := z.st.setEdgeProp id k v, se := se', ghostE := if alive then z.ghostE else sinsert z.ghostE id }, { model := "-" })
   | ["al", id, l] => do
     let id ← id.toNat?
     let l ← l.toNat?
@@ -123,13 +123,11 @@ def handle (z : St) (args : List String) : Option (St × Proto.Out) :=
     let sn' := match aget z.sn id with
       | some n => if can then aset z.sn id { n with labels := n.labels ++ [l] } else z.sn
       | none => z.sn
-    -- `get_or_create_label_id` runs only after the liveness check
-    let known' := if (z.st.getNodeAt id z.st.epoch).isSome then sinsert z.known l else z.known
-    pure ({ z with st := st', known := known', sn := sn' }, mk (boolStr r) (boolStr can) "add-label-flag")
+    pure ({ z with st := st', sn := sn' }, mk (boolStr r) (boolStr can) "add-label-flag")
   | ["rl", id, l] => do
     let id ← id.toNat?
     let l ← l.toNat?
-    let (st', r) := z.st.removeLabel id l (z.known.contains l)
+    let (st', r) := z.st.removeLabel id l
     let can := sAliveNode z id && (((aget z.sn id).map (·.labels)).getD []).contains l
     let sn' := match aget z.sn id with
       | some n => if can then aset z.sn id { n with labels := serase n.labels l } else z.sn
